@@ -160,9 +160,73 @@ def scen_late_bookkeeping(variant):
         queue.Queue.put = orig
 
 
+def preempt_put(scen, k):
+    """the producer is preempted at the k-th bytecode of SkipRepeatsQueue.put (the part that runs outside the queue's
+    mutex); another thread then performs one complete operation; the producer resumes.  Returns (problems, reached)."""
+    q = SkipRepeatsQueue()
+    init, item, other = {"get-vs-different": (["X"], "Y", ("get",)), "get-vs-equal": (["X"], "X", ("get",)), "put-vs-put": ([], "A", ("put", "B")), "put-equal-vs-put": (["A"], "B", ("put", "A"))}[scen]
+    for v in init:
+        q.put(It(v))
+    reached, go = threading.Event(), threading.Event()
+    n = [0]
+    err = []
+
+    def local(frame, event, arg):
+        if event == "opcode":
+            n[0] += 1
+            if n[0] == k:
+                reached.set()
+                go.wait(5)
+        return local
+
+    def tracer(frame, event, arg):
+        if event == "call" and frame.f_code.co_name == "put" and frame.f_code.co_filename.endswith("bricks.py"):
+            frame.f_trace_opcodes = True
+            return local
+        return None
+
+    def prod():
+        sys.settrace(tracer)
+        try:
+            q.put(It(item))
+        except Exception as e:  # noqa: BLE001
+            err.append(repr(e))
+        finally:
+            sys.settrace(None)
+    t = threading.Thread(target=prod, name="producer")
+    t.start()
+    hit = reached.wait(1.0)
+    got = []
+    if hit:
+        if other[0] == "get":
+            got.append(q.get(timeout=2))
+        else:
+            q.put(It(other[1]))
+    go.set()
+    t.join(3)
+    while True:
+        try:
+            got.append(q.get_nowait())
+        except queue.Empty:
+            break
+    vals = [g.v for g in got]
+    out = []
+    if err:
+        out.append(f"{scen}: producer preempted at bytecode #{k} of put() while another thread did {other}: put() raised {err[0]}")
+    elif hit:
+        ok = {"get-vs-different": vals == ["X", "Y"], "get-vs-equal": vals in (["X"], ["X", "X"]), "put-vs-put": sorted(vals) == ["A", "B"],
+              "put-equal-vs-put": vals in (["A", "B"], ["A", "B", "A"], ["A", "A", "B"]) or sorted(vals) == ["A", "A", "B"]}[scen]
+        if not ok:
+            out.append(f"{scen}: producer preempted at bytecode #{k} of put() while another thread did {other}: items obtained {vals}")
+    return out, hit
+
+
 def main():
     if REPLAY is not None:
         c = REPLAY
+        if c["kind"] == "preempt":
+            pr, _hit = preempt_put(c["scen"], c["k"])
+            replay_result(bool(pr), pr[:3])
         if c["kind"] == "seq":
             pr = run_seq([tuple(o) for o in c["seq"]])
         elif c["kind"] == "eq":
@@ -186,6 +250,14 @@ def main():
     pr = queue_pairs()
     if pr:
         bat.fail("C16.equal-only-if-same-class-and-fields", pr[0], {"kind": "eq", "problems": pr[:3]}, "EventQueue")
+    for scen in ("get-vs-different", "get-vs-equal", "put-vs-put", "put-equal-vs-put"):
+        for k in range(1, 200):
+            pr, hit = preempt_put(scen, k)
+            if not hit and not pr:
+                break           # put() has fewer bytecodes than k: every preemption point was visited
+            bat.case(("preempt", scen, k))
+            if pr:
+                bat.fail("C16.preempted-put", pr[0], {"kind": "preempt", "scen": scen, "k": k, "problems": pr[:3]}, "SkipRepeatsQueue.put")
     for v in ("consumer", "producer"):
         bat.case(("scenario", v))
         pr = scen_late_bookkeeping(v)
